@@ -413,6 +413,7 @@ func c11Process(c *vk.Ctx, r *rand.Rand, round int) bool {
 	nOK, nEOF0, inside, insideOK := 0, 0, 0, 0
 	for _, e := range exchanges {
 		ov := overlaps(windows, e.t0, e.t1)
+		c.Eval(fmt.Sprintf("exchange|%s|overlaps-reload=%v|started-inside=%v|legacy=%v", e.outcome, ov, startedInside(windows, e.t0), legacy))
 		if startedInside(windows, e.t0) {
 			inside++
 			if e.outcome == "ok" {
